@@ -174,6 +174,26 @@ def run_torsion(spec, res):
     S.scatter([chain_a, chain_b], rng)
     items, truth = S.assemble([{"id": "A", "start": 1, "residues": chain_a},
                                {"id": "B", "start": 1, "residues": chain_b}])
+    # some long side chains are laid out as an exactly planar all-trans zig-zag in a lattice plane (z identical to
+    # three decimals, as in idealised or 2D-drawn coordinates): the torsion's handedness product is exactly zero
+    order = {"LYS": ["CB", "CG", "CD", "CE", "NZ"], "ARG": ["CB", "CG", "CD", "NE", "CZ"], "MET": ["CB", "CG", "SD", "CE"],
+             "GLU": ["CB", "CG", "CD", "OE1"], "GLN": ["CB", "CG", "CD", "OE1"], "ILE": ["CB", "CG1", "CD1"],
+             "LEU": ["CB", "CG", "CD1"]}
+    byres = {}
+    for it in items:
+        if isinstance(it, dict):
+            byres.setdefault((it["chain"], it["resi"]), {})[it["name"]] = it
+    for key, atoms in byres.items():
+        resn = next(iter(atoms.values()))["resn"]
+        if resn in order and rng.random() < 0.5 and all(n in atoms for n in order[resn] + ["CA"]):
+            ca = atoms["CA"]
+            axis = rng.choice("xyz")
+            u, v = [a for a in "xyz" if a != axis]
+            for k, n in enumerate(order[resn]):
+                atoms[n][axis] = ca[axis]
+                atoms[n][u] = round(ca[u] + 1.25 * (k + 1), 3)
+                atoms[n][v] = round(ca[v] + (0.88 if k % 2 == 0 else 0.0), 3)
+            res.count("flat_side_chains")
     bio, deb, _ = build.biomolecule_from_text(pdbfmt.to_text(items))
     tcalls = 0
     for residue, tr in zip(bio.residues, truth):
